@@ -108,10 +108,10 @@ def cases(rng, tier):
             if rng.random() < 0.12:
                 r, c = rng.choice([(rng.randint(1, 4), 0), (0, rng.randint(0, 3))])     # degenerate matrices: no column / no row
             ss = [rng.randint(0, c) for _ in range(r)]; es = [rng.randint(s, c) for s in ss]
-            if rng.random() < 0.3:
+            if rng.random() < 0.45:
                 es = [e - c if e < c else e for e in es]
             out.append({"f": "ragged_slice_nd", "nd": 2, "r": r, "c": c, "starts": ss, "ends": es, "dtype": dt(), "vseed": rng.randint(0, 99),
-                        "layout": rng.choice(["C", "F", "T", "strided"])})     # memory layout of the 2-D argument
+                        "layout": rng.choice(["C", "C", "C", "F", "T", "strided"])})     # memory layout of the 2-D argument
     return out
 
 
@@ -193,6 +193,10 @@ def run_impl(p):
                     arg = s.T.copy().T
                 elif lay == "strided":
                     arg = np.repeat(s, 2, axis=-1)[..., ::2]
+                if lay == "C" and p["vseed"] % 2 == 0 and len(p["starts"]) > 0:
+                    # the same windows through the indexing form of the array mixin: arr.view(NPSArray)[starts:ends]
+                    from npstructures.mixin import NPSArray
+                    return np.asarray(arg).view(NPSArray)[np.array(p["starts"]):np.array(p["ends"])]
                 return ragged_slice(arg, np.array(p["starts"]), np.array(p["ends"]))
             n = sum(p["lens"])
             ra = RaggedArray(s[:n].copy(), list(p["lens"]))
@@ -223,9 +227,22 @@ def run_impl(p):
                     if "ydtype" in p:
                         y = RaggedArray(gens.cell_values(p["ydtype"], n, random.Random(p["vseed"] + 1)), list(p["lens"]))
                     return np.where(m, ra, y)
-                if f == "subset":
-                    return ra.subset(m)
-                return ra[m]
+                res = ra.subset(m) if f == "subset" else ra[m]
+                # the selection owns its cells: a write into the source afterwards leaves it as it was, and a write into the
+                # selection leaves the source as it was (also when the mask keeps every cell)
+                keep = canon(res)
+                src_before = np.asarray(ra.ravel()).copy()
+                if ra.size:
+                    ra.fill(np.ones(1, dtype=ra.dtype)[0])
+                    if canon(res) != keep:
+                        raise AssertionError("a mask selection changed when its source was written to")
+                    ra.ravel()[...] = src_before
+                flat = res.ravel() if hasattr(res, "ravel") else res
+                if isinstance(flat, np.ndarray) and flat.size and flat.flags.writeable:
+                    flat[...] = np.zeros(1, dtype=flat.dtype)[0] if flat[0] != 0 else np.ones(1, dtype=flat.dtype)[0]
+                    if np.asarray(ra.ravel()).tobytes() != src_before.tobytes():
+                        raise AssertionError("writing into a mask selection changed its source")
+                return keep
             if f == "ragged_slice":
                 kw = {}
                 if p["starts"] is not None:
